@@ -272,10 +272,12 @@ class Bag(Factory, Container):
             else:
                 raise JsonFormatException(json["name"], "Bag.name")
 
-            if json["values"] is None:
-                values = None
+            if isinstance(json["range"], basestring):
+                range = json["range"]
+            else:
+                raise JsonFormatException(json["range"], "Bag.range")
 
-            elif json["values"] is None or isinstance(json["values"], list):
+            if isinstance(json["values"], list):
                 values = {}
                 for i, nv in enumerate(json["values"]):
                     if isinstance(nv, dict) and hasKeys(nv.keys(), ["w", "v"]):
@@ -284,11 +286,18 @@ class Bag(Factory, Container):
                         else:
                             raise JsonFormatException(nv["w"], f"Bag.values {i} n")
 
-                        if nv["v"] in ("nan", "inf", "-inf") or isinstance(nv["v"], numbers.Real):
-                            v = floatOrNan(nv["v"])
-                        elif isinstance(nv["v"], basestring):
-                            v = nv["v"]
-                        elif isinstance(nv["v"], (list, tuple)):
+                        # the value is read according to the declared range
+                        if range == "S":
+                            if isinstance(nv["v"], basestring):
+                                v = nv["v"]
+                            else:
+                                raise JsonFormatException(nv["v"], f"Bag.values {i} v")
+                        elif range == "N":
+                            if nv["v"] in ("nan", "inf", "-inf") or isinstance(nv["v"], numbers.Real):
+                                v = floatOrNan(nv["v"])
+                            else:
+                                raise JsonFormatException(nv["v"], f"Bag.values {i} v")
+                        elif isinstance(nv["v"], (list, tuple)) and range[1:].isdigit() and len(nv["v"]) == int(range[1:]):
                             for j, d in enumerate(nv["v"]):
                                 if d not in ("nan", "inf", "-inf") and not isinstance(d, numbers.Real):
                                     raise JsonFormatException(d, f"Bag.values {i} v {j}")
@@ -303,16 +312,8 @@ class Bag(Factory, Container):
                     else:
                         raise JsonFormatException(nv, f"Bag.values {i}")
 
-            elif json["values"] is None:
-                values = None
-
             else:
                 raise JsonFormatException(json["values"], "Bag.values")
-
-            if isinstance(json["range"], basestring):
-                range = json["range"]
-            else:
-                raise JsonFormatException(json["range"], "Bag.range")
 
             out = Bag.ed(entries, values, range)
             out.quantity.name = nameFromParent if name is None else name
